@@ -198,6 +198,22 @@ func init() {
 		vc.assume(st.cond, and(app("bvuge", obj, bvLit(64, 1<<47)))) // disjoint from object references
 		if mi, ok := src.(*ssa.MakeInterface); ok {
 			pv := vc.value(fr, mi.X)
+			// a message struct passed by value: the Value views a copy of the message
+			if num, isMsg := vc.w.msgNumOfType(pv.T); isMsg {
+				ref := vc.allocRef(st)
+				vc.storeDesc(st, &PtrDesc{Root: rObj, Ref: ref, RootT: pv.T, T: pv.T}, pv)
+				return Val{T: rt, L: []string{ref, bvLit(64, uint64(num)), allOnes64, allOnes64, cls(clsStruct), bvLit(64, 0), cls(0), bvLit(64, 0), bvLit(64, uint64(vc.w.tags.tag(pv.T)))}}
+			}
+			// a pointer to a message struct: remembered so that Indirect / Elem can follow it
+			if pt, ok := pv.T.Underlying().(*types.Pointer); ok {
+				if _, isMsg := vc.w.msgNumOfType(pt.Elem()); isMsg {
+					hn := ghostHeapName("plain!rvPtr")
+					hs := arrSort(sBV64, sBV64)
+					vc.ghostSorts[hn] = hs
+					vc.setHeap(st, hn, hs, sto(vc.heapTerm(st, hn, hs), obj, pv.L[0]))
+					return Val{T: rt, L: []string{obj, bvLit(64, rvPlain), allOnes64, allOnes64, cls(clsOther), bvLit(64, 0), cls(0), bvLit(64, 0), bvLit(64, uint64(vc.w.tags.tag(pv.T)))}}
+				}
+			}
 			c, w := classifyType(pv.T)
 			set := func(n, val string) {
 				hn := ghostHeapName("plain!" + n)
@@ -282,6 +298,25 @@ func init() {
 		v := args[0]
 		vc.oblige(st, "pre@reflect.Value.Interface", "valid", not(eq(v.L[iMt], bvLit(64, rvInvalid))), call.Pos(), vc.safetyProps)
 		return vc.rvInterface(v)
+	})
+	// reflect.Indirect(v): v itself unless it wraps a pointer to a message struct; then the message it points to
+	// (the zero Value for a nil pointer). Other pointer Values are outside the model.
+	reg("reflect.Indirect", func(vc *VC, fr *Frame, st *State, call *ssa.CallCommon, args []Val, rt types.Type) Val {
+		v := args[0]
+		vc.ptrMsgAxioms()
+		isPtr := and(eq(v.L[iMt], bvLit(64, rvPlain)), app("bvult", app("RVPtrMsg", v.L[iTTag]), bvLit(64, 0xFF00)))
+		vc.oblige(st, "pre@reflect.Indirect", "message", or(eq(v.L[iCls], cls(clsStruct)), isPtr, eq(v.L[iMt], bvLit(64, rvInvalid))), call.Pos(), vc.safetyProps)
+		hn := ghostHeapName("plain!rvPtr")
+		hs := arrSort(sBV64, sBV64)
+		vc.ghostSorts[hn] = hs
+		p := sel(vc.heapTerm(st, hn, hs), v.L[iObj])
+		mt := app("RVPtrMsg", v.L[iTTag])
+		el := []string{p, ite(eq(p, bvLit(64, 0)), bvLit(64, rvInvalid), mt), allOnes64, allOnes64, cls(clsStruct), bvLit(64, 0), cls(0), bvLit(64, 0), app("RVTag", mt)}
+		out := Val{T: rt}
+		for k := range v.L {
+			out.L = append(out.L, ite(isPtr, el[k], v.L[k]))
+		}
+		return out
 	})
 	reg("(reflect.Value).Elem", func(vc *VC, fr *Frame, st *State, call *ssa.CallCommon, args []Val, rt types.Type) Val {
 		vc.unsupported("reflect.Value.Elem outside getMesgAllInvalid")
